@@ -7,6 +7,10 @@
 #define HIST_H
 #include "hpre.h"
 #include "model.c"
+#ifdef LIFETIME
+#define IR_BUMP_SLOT 256
+#define IR_MAX_OBJ 40
+#endif
 #include "hpost.h"
 #include "probe.h"
 #define TSD(t) TLS___dispatch_tsd(t)
